@@ -650,12 +650,13 @@ def scenario_slot_owns_signal(r):
         main += ["gq 1", "gemit 1 2 1", "gdel 1"]
     if use_t:
         main += ["tdel %d" % T]
-    main += ["cdel %d" % k for k in range(0, owner + 1)] + ["probe"]
+    # the owner sitting in the list of the object it owns is a reference cycle: break it before the handles go
+    main += ["cdisc %d" % owner] + ["cdel %d" % k for k in range(0, owner + 1)] + ["probe"]
     parts = ["S %d a %d %s" % (b, b, " ".join(ops)) for b, ops in scripts.items()]
     return " ".join((accs + " ".join(parts) + " O 5 1 2000 M " + " ".join(main)).split())
 
 
-SCENARIOS = [scenario_owner_sweep] * 6 + [scenario_last_handle] * 3 + [scenario_blocked_transfers] * 3 + [scenario_deep_recursion]
+SCENARIOS = [scenario_owner_sweep] * 6 + [scenario_slot_owns_signal] * 5 + [scenario_last_handle] * 3 + [scenario_blocked_transfers] * 3 + [scenario_deep_recursion]
 
 
 def scenarios(seed, count):
